@@ -123,6 +123,14 @@ def run(tier):
         c.add_tlc(r, cfg)
         if bad:
             c.violation("model:" + bad, "grammar-level invariant %s violated" % bad, {"tlc_tail": r.out[-4000:]})
+        # which declaration a (qualified) type name denotes: specs/Symtab.tla (C++ lookup rule for the documented
+        # subset), the real symbol tables, and g++ for the rule itself
+        r2, bad2 = model_check("MC_Symtab", "MC_Symtab", timeout=900)
+        c.add_tlc(r2, "MC_Symtab")
+        if bad2:
+            c.violation("model:Symtab:" + bad2, "name-resolution invariant %s violated" % bad2, {"tlc_tail": r2.out[-3000:]})
+        import symtab
+        symtab.run(c, tier)
         lib = G.Lib()
         ds = list(G.variables())
         ds += list(G.functions(rng, 20000 if thorough else 2500))
